@@ -358,7 +358,7 @@ class EngineC08(HistEngine):
                 out.count("states_executed")
                 if scoped_err is not None:
                     out.count("il_error_scoped")
-                    if re.search(r"bitvector expected|bool expected|operand widths", scoped_err) and not conv_done:
+                    if re.search(r"bitvector expected|bool expected|operand widths|ill-sorted argument", scoped_err) and not conv_done:
                         # the isolated run itself is ill-sorted (e.g. an argument conversion applied to a boolean)
                         V.append(Violation("C08", "convention", "ill-sorted-call-path", cfg,
                                            {"caller": c["text"], "error": scoped_err[:200], "uses": c["uses"]}, step))
